@@ -114,6 +114,11 @@ class EncodeState:
                     f"The value '{internal_value!r}' cannot be encoded using "
                     f"{bit_length} bits.", EncodeError)
                 raw_value = raw_value[0:bit_length // 8]
+            elif 8 * len(raw_value) < bit_length:
+                odxraise(
+                    f"The value '{internal_value!r}' is too short to be encoded "
+                    f"using {bit_length} bits.", EncodeError)
+                raw_value = raw_value.ljust((bit_length + 7) // 8, b'\x00')
 
         # ... string types, ...
         elif base_data_type in (DataType.A_UTF8STRING, DataType.A_ASCIISTRING,
@@ -125,7 +130,13 @@ class EncodeState:
             str_encoding = get_string_encoding(base_data_type, base_type_encoding,
                                                is_highlow_byte_order)
             if str_encoding is not None:
-                raw_value = internal_value.encode(str_encoding)
+                try:
+                    raw_value = internal_value.encode(str_encoding)
+                except UnicodeError as e:
+                    odxraise(
+                        f"The value '{internal_value!r}' cannot be represented "
+                        f"using the encoding '{str_encoding}': {e}", EncodeError)
+                    raw_value = internal_value.encode(str_encoding, errors="replace")
             else:
                 raw_value = b""
 
@@ -134,6 +145,11 @@ class EncodeState:
                     f"The value '{internal_value!r}' cannot be encoded using "
                     f"{bit_length} bits.", EncodeError)
                 raw_value = raw_value[0:bit_length // 8]
+            elif 8 * len(raw_value) < bit_length:
+                odxraise(
+                    f"The value '{internal_value!r}' is too short to be encoded "
+                    f"using {bit_length} bits.", EncodeError)
+                raw_value = raw_value.ljust((bit_length + 7) // 8, b'\x00')
 
         # ... signed integers, ...
         elif base_data_type == DataType.A_INT32:
